@@ -247,6 +247,9 @@ fn cells_eq(a: &[Cell], b: &[Cell]) -> bool {
 fn arity(word: &str) -> usize {
     match word {
         "bits" | "bytes" | "uint" | "int" | "float" | "magic" | "seek" | "find" | "open-bitstr" => 1,
+        ">bitstr" | "emit" => 1,
+        "bitstr-append" | "int!" | "uint!" | "float!" => 2,
+        w if w.ends_with('!') => 1,
         _ => 0,
     }
 }
@@ -466,6 +469,28 @@ fn oracle_step(ctx: &mut Ctx, rc: &mut RefCur, word: &str, res: &Result<(), Xerr
                 }
             }
         }
+        ">bitstr" | "emit" | "bitstr-append" | "output" | "output-length" | "int!" | "uint!" | "float!" => {
+            if a.offset != b.offset {
+                bad.push("a construction word moved the offset".into());
+            }
+            if res.is_ok() && word == "bitstr-append" {
+                // `a b bitstr-append` = b ++ a
+                if let (Some(Cell::Bitstr(x)), Some(Cell::Bitstr(y))) = (b.stack.get(nb.wrapping_sub(2)).map(|c| c.value().clone()), top.map(|c| c.value().clone())) {
+                    let mut want = bits_vec(&y);
+                    want.extend(bits_vec(&x));
+                    let mut exp = below.to_vec();
+                    exp.push(Cell::Bitstr(bitstr_from_bits(&want)));
+                    if !cells_eq(&a.stack, &exp) {
+                        bad.push("bitstr-append: result is not top ++ second".into());
+                    }
+                }
+            }
+        }
+        w if w.ends_with('!') => {
+            if a.offset != b.offset {
+                bad.push("a construction word moved the offset".into());
+            }
+        }
         "close-bitstr" => {
             must_ok = Some(!rc.stash.is_empty());
             if res.is_ok() {
@@ -570,6 +595,16 @@ impl Runner {
         }
     }
 
+    /// `Xstate::intercept_output`
+    pub fn intercept(&mut self, yes: bool) {
+        self.toks.push(if yes { "I+" } else { "I-" }.into());
+        self.xs.intercept_output(yes).unwrap();
+        match observe(&mut self.xs) {
+            Some(obs) => self.report("ok", &obs),
+            None => { self.reports.push("panic".into()); self.dead = true; }
+        }
+    }
+
     pub fn report(&mut self, st: &str, obs: &Obs) {
         let ds: Vec<String> = obs.stack.iter().map(|c| canon::cell(c)).collect();
         let k = self.prev_ds.iter().zip(ds.iter()).take_while(|(a, b)| a == b).count();
@@ -601,12 +636,28 @@ fn tag_of_result(res: &Result<(), Xerr>) -> String {
 fn one_sequence(ctx: &mut Ctx, base: &Xstate, nops: usize) {
     let mut rn = Runner::new(base);
     let mut rc = RefCur { stash: vec![], big: false };
+    // construction words are mixed in with interception on (emit must not write to the real stdout)
+    rn.intercept(true);
     let mut obs = observe(&mut rn.xs).unwrap();
     // open a generated input first (90 %), otherwise start on the empty boot input
     let mut pending_open = ctx.rng.chance(92);
     let mut steps = 0;
     while steps < nops && !rn.dead {
         steps += 1;
+        if ctx.rng.chance(2) {
+            // interception off and on again: `output` is nil in between, a fresh empty bit-string afterwards,
+            // output-length keeps counting (no emit while it is off: that would write to the real stdout)
+            rn.intercept(false);
+            if let Some((_, o)) = rn.word("output", "output".into()) {
+                ctx.check(matches!(o.stack.last(), Some(Cell::Nil)), || format!("C06 {}", rn.toks.join(" ")), || "output is nil while interception is off".into(), || "something else".into());
+            }
+            rn.intercept(true);
+            ctx.tag("api:intercept-off-on");
+            if let Some(o) = observe(&mut rn.xs) {
+                obs = o;
+            }
+            continue;
+        }
         let r = &mut ctx.rng;
         let remain = (obs.bits.len() as i128 - obs.rel()).max(0) as usize;
         let rest: Vec<bool> = obs.bits[obs.bits.len() - remain..].to_vec();
@@ -620,6 +671,18 @@ fn one_sequence(ctx: &mut Ctx, base: &Xstate, nops: usize) {
                 0..=4 => "seek".into(),
                 5..=7 => "open-bitstr".into(),
                 _ => "close-bitstr".into(),
+            }
+        } else if r.chance(10) {
+            match r.below(12) {
+                0 | 1 => "bitstr-append".into(),
+                2 | 3 => ">bitstr".into(),
+                4 | 5 => "emit".into(),
+                6 => "output".into(),
+                7 => "output-length".into(),
+                8 => format!("{}{}{}!", r.pick(&["u", "i"]), r.pick(&[8, 16, 32, 64]), r.pick(&["", "le", "be"])),
+                9 => "int!".into(),
+                10 => format!("f{}{}!", r.pick(&[32, 64]), r.pick(&["", "le", "be"])),
+                _ => "float!".into(),
             }
         } else {
             match r.below(100) {
@@ -652,7 +715,35 @@ fn one_sequence(ctx: &mut Ctx, base: &Xstate, nops: usize) {
         let top_is_int = matches!(obs.stack.last().map(|c| c.value().clone()), Some(Cell::Int(_)));
         let top_is_bitstr = matches!(obs.stack.last().map(|c| c.value().clone()), Some(Cell::Bitstr(_)));
         let mut argkind = "none";
-        if arity(&word) == 1 {
+        if word.ends_with('!') || matches!(word.as_str(), "bitstr-append" | ">bitstr" | "emit") {
+            argkind = "construction";
+            let bs = |r: &mut crate::rng::Rng| { let b = gen_bits(r, 20); let pre = r.below(9); Cell::Bitstr(embed(r, &b, pre, 0)) };
+            match word.as_str() {
+                _ if malformed => { if r.bool() { let c = wrong_type(r); rn.push(c); } }
+                "bitstr-append" => { let a = bs(r); rn.push(a); let b = bs(r); rn.push(b); }
+                "emit" => { let a = bs(r); rn.push(a); }
+                ">bitstr" => {
+                    let mut v = Xvec::new();
+                    for _ in 0..r.below(5) {
+                        let c = match r.below(6) {
+                            0 => Cell::Int(r.below(256) as i128),
+                            1 => Cell::from(gen_str(r)),
+                            2 => bs(r),
+                            3 => { let mut w = Xvec::new(); w.push_back_mut(Cell::Int(r.below(256) as i128)); w.push_back_mut(bs(r)); Cell::Vector(w) }
+                            4 => Cell::Int(*r.pick(&[256i128, -1, 255, 0])),
+                            _ => { let c = Cell::Int(r.below(256) as i128); tag_it(r, c) }
+                        };
+                        v.push_back_mut(c);
+                    }
+                    let c = match r.below(8) { 0 => Cell::from(gen_str(r)), 1 => bs(r), 2 => gen_other(r), _ => Cell::Vector(v) };
+                    rn.push(c);
+                }
+                "int!" | "uint!" => { rn.push(Cell::Int(gen_int(r))); rn.push(Cell::Int(*r.pick(&[0i128, 1, 7, 8, 9, 16, 33, 64, 127, 128, 129, 200, -1, 1 << 64]))); }
+                "float!" => { rn.push(Cell::Real(gen_real(r))); rn.push(Cell::Int(*r.pick(&[32i128, 64, 16, 0, -1, 1 << 64]))); }
+                w if w.starts_with('f') => { rn.push(Cell::Real(gen_real(r))); }
+                _ => { rn.push(Cell::Int(gen_int(r))); }
+            }
+        } else if arity(&word) == 1 {
             if malformed {
                 if r.chance(35) {
                     argkind = "as-is"; // whatever is (or is not) on the stack
@@ -745,6 +836,14 @@ fn one_sequence(ctx: &mut Ctx, base: &Xstate, nops: usize) {
             }
         }
         let before = observe(&mut rn.xs).unwrap();
+        // `int!`/`uint!` with a width beyond a few thousand bits allocates width/8 bytes up front and aborts
+        // the process on failure (reported defect) — such a width is never fed to them
+        let word = if matches!(word.as_str(), "int!" | "uint!") && matches!(before.stack.last().map(|c| c.value().clone()), Some(Cell::Int(i)) if i > 4096 && i <= usize::MAX as i128) {
+            ctx.tag("skipped:int!-huge-width");
+            "output-length".to_string()
+        } else {
+            word
+        };
         let tok = if word == "open-bitstr" {
             let st = match before.stack.last().map(|c| c.value().clone()) { Some(Cell::Bitstr(b)) => b.start(), _ => 0 };
             format!("open-bitstr@{}", st)
@@ -752,7 +851,7 @@ fn one_sequence(ctx: &mut Ctx, base: &Xstate, nops: usize) {
             word.clone()
         };
         let case = format!("C06 {} {}", rn.toks.join(" "), tok);
-        let wclass = if READ_FIXED.contains(&word.as_str()) { format!("{}N", &word[..1]) } else { word.clone() };
+        let wclass = if READ_FIXED.contains(&word.as_str()) { format!("{}N", &word[..1]) } else if word.ends_with('!') && word != "int!" && word != "uint!" && word != "float!" { format!("{}N!", &word[..1]) } else { word.clone() };
         ctx.tag(&format!("word:{}", wclass));
         if argkind != "none" {
             ctx.tag(&format!("arg:{}:{}", wclass, argkind));
